@@ -247,3 +247,27 @@ MORE4 = {
 }
 for _k, _v in MORE4.items():
     MORE[_k] = (MORE[_k] + ' ' if _k in MORE else '') + _v
+
+# Session 4, round-4 triage and hunters H6/H7
+MORE5 = {
+    'C01': 'R01.13 mapping differs handle all three key classes; R01.14 nbpatch -o: every successful exit passes through the write; R01.15 what may be declared atomic; R01.16 nested list patches keyed by the index in A.',
+    'C02': 'R02.14 as R01.13; R02.15 as R01.15; R02.16 as R01.16.',
+    'C03': 'R03.25 combine_patches returns only the folded list; R03.26 one line model in the string merger (C07 R07.8).',
+    'C04': 'R04.9 no removing strategy on a schema-required field; R04.8 also rejects a placeholder test by file name only.',
+    'C05': 'R05.8 merge_notebooks returns exactly (apply_decisions(base, decisions), decisions); R05.9 side-naming constants come in mirror pairs; R05.4 also checks bounds shared by a mirrored pair.',
+    'C07': 'R07.15 mirrored pairs and shared bounds in the text-merge renderers.',
+    'C08': 'R08.11 the stdout error handler is backslashreplace (JSON reads its escapes back).',
+    'C09': 'R09.16 as R05.8.',
+    'C10': 'R10.8 a use-* strategy test never chooses between recursive merge and a whole-value decision; R10.9 as R05.8.',
+    'C11': 'R11.10 a replace built for a variable key has membership evidence; R11.11 lifting wraps innermost-first.',
+    'C13': 'the alias analysis charges deep mutations of a *args parameter to the surplus positional arguments.',
+    'C14': 'R14.14 output alignment never compares ignorable fields (per output type, against the schema); R14.15 no installation memo (C12 R12.1).',
+    'C15': 'R15.8 clear on an absent key builds the same entry kind on both sides (KNOWN FINDING); R15.9 clear only on fields required somewhere; R15.10 no `in` presence test in the TypeScript diff/patch/merge code.',
+    'C16': 'R16.17 constant index into splitlines() only after an emptiness test; R16.18 config forwarded to every helper that takes one.',
+    'C17': 'R17.3 follows a diff helper and requires every return to be a diff result; R17.10 the base revision is never None; R17.11 filters cannot abort the listing; R17.12 paths after `--`; R17.13 git\'s verdict "deleted" reaches the open.',
+    'C18': 'R18.4 marker test reads rule lines (comments skipped); helper form: append mode or lossless rewrite.',
+    'C19': 'R19.10 sub-command parsers stay config backed.',
+    'C20': 'R20.7 nothing but writes of an already serialised text while the output is open; R20.13 no class-level containers written by handler methods; R20.14 path parameters resolved against the cwd parameter only.',
+}
+for _k, _v in MORE5.items():
+    MORE[_k] = (MORE[_k] + ' ' if _k in MORE else '') + _v
